@@ -127,6 +127,7 @@ def verify_function(repo, contracts, c, registry=None, scope=None, opts=None):
         rep.unsupported = "function not found: %s (%r)" % (c.key, e)
         return rep
     rep.sha = func.sha()
+    rep.loop_signature = func.loop_signature() if getattr(c, "loops", None) else None
     E = Exec(repo, contracts, R, prop=c.prop, opts=dict(opts or {}, max_paths=c.max_paths))
     E.scope = scope
     E.top = c
